@@ -53,6 +53,17 @@ func (s *NegationVisitor) ExitOC_StringListNullPredicateExpression(ctx *parser.O
 	s.Negation.Expression = result
 }
 
+// nestNegations wraps the negation once more for every further NOT of a `NOT NOT ... x` chain.
+func nestNegations(negation *cypher.Negation, numNegations int) *cypher.Negation {
+	for remaining := numNegations; remaining > 1; remaining-- {
+		negation = &cypher.Negation{
+			Expression: negation,
+		}
+	}
+
+	return negation
+}
+
 type JoiningVisitor struct {
 	BaseVisitor
 
@@ -70,7 +81,7 @@ func (s *JoiningVisitor) EnterOC_NotExpression(ctx *parser.OC_NotExpressionConte
 func (s *JoiningVisitor) ExitOC_NotExpression(ctx *parser.OC_NotExpressionContext) {
 	if len(ctx.AllNOT()) > 0 {
 		visitor := s.ctx.Exit().(*NegationVisitor)
-		s.Joined.Add(visitor.Negation)
+		s.Joined.Add(nestNegations(visitor.Negation, len(ctx.AllNOT())))
 	}
 }
 
